@@ -186,4 +186,17 @@ def handleSymlink (dir : List String) (linkSegs : List String) : Loaded :=
     else if isAbs then .node (cleanAbs linkSegs)           -- path.Clean(target)
     else .node (cleanAbs (dir ++ linkSegs))                -- path.Clean(path.Join(path.Dir(vp), target))
 
+/-- A tar hard link (`tar.TypeLink`) names another entry of the archive: the loader rewrites its
+Linkname to `"/" + strings.TrimPrefix(Linkname, "/")` and hands it to `handleSymlink`, so the node is a
+symlink node (mode | ModeSymlink) whose target is relative to the image root. On segments (the link
+name split on "/"): an absolute name keeps its segments, anything else — the empty name included — gets
+the leading "" of an absolute path. -/
+def hardLinkSegs (linkSegs : List String) : List String :=
+  if linkSegs.length ≥ 2 && linkSegs.head? = some "" then linkSegs
+  else "" :: (if linkSegs = [] then [""] else linkSegs)      -- (a split string is never [])
+
+/-- the `case tar.TypeLink:` arm of the loader -/
+def handleHardLink (dir : List String) (linkSegs : List String) : Loaded :=
+  handleSymlink dir (hardLinkSegs linkSegs)
+
 end Scalibr.Symlink
